@@ -152,6 +152,8 @@ pub const SNIPPETS: &[&str] = &[
     "FOR I=1 TO 3", "FOR J=3 TO 1 STEP -1", "FOR I=1 TO 10 STEP 2:PRINT I;:NEXT", "NEXT", "NEXT I", "NEXT J,I", "WHILE A<3", "WEND", "A=A+1:WEND",
     "GOTO 10", "GOTO 20", "GOSUB 100", "GOSUB 200", "RETURN", "ON A GOTO 10,20,30", "ON I GOSUB 100,200", "END", "STOP", "CONT", "RUN", "RUN 20",
     "LIST", "LIST 10-20", "LIST -20", "LIST 10-", "NEW", "CLEAR", "DELETE 10", "DELETE 10-20", "DELETE -10", "DELETE", "RENUM", "RENUM 100", "RENUM 100,20,5", "RENUM ,,1",
+    "DIM Q(5):Q(1,2)=7", "X(3)=1:PRINT X(3,0)", "Q(1,2,3)=1:PRINT Q(1)", "DIM R$(2,2):R$(1)=\"x\":PRINT R$(1,1,1)", "A$=\"HELLO WORLD!\":MID$(A$,14)=\"X\":PRINT A$", "MID$(B$,2,0)=\"\":PRINT B$",
+    "MID$(A$,300)=\"X\"", "MID$(A$,1,300)=STRING$(255,\"y\"):PRINT LEN(A$)",
     "DATA 1,2,3", "DATA \"A\",-5,&H10,1.5", "READ A", "READ A$,B%", "RESTORE", "RESTORE 20", "DIM Q(5)", "DIM Q(3,3),R$(2)", "ERASE Q", "Q(1)=5", "PRINT Q(1)",
     "SWAP A,B", "SWAP A$,B$", "SWAP A,B$", "DEF FNA(X)=X*2", "DEF FNB$(S$,N)=LEFT$(S$,N)", "PRINT FNA(3)", "PRINT FNB$(\"ABC\",2)", "DEF FNR(X)=FNR(X)+1", "PRINT FNR(1)",
     "DEFINT A-C", "DEFSTR S", "DEFDBL D", "DEFSNG A-Z", "INPUT A", "INPUT \"NAME\";N$", "INPUT ,A$,B", "INPUT A,B,C$", "REM hello", "' note", "TRON", "TROFF", "CLS",
